@@ -1297,7 +1297,7 @@ class AgProtocol(utils.EventEmitter):
                     continue
                 try:
                     handler(*command.parameters)
-                except (ValueError, KeyError):
+                except Exception:
                     # The handlers validate their parameters before answering
                     logger.warning(
                         'Invalid parameters for %s: %s',
